@@ -652,7 +652,9 @@ theorem bind_bare_host_in_list (pre post : List (List Char)) (h : List Char) (hh
 /-- ... and so is a bracketed IPv6 literal without a port -/
 theorem bind_bare_v6_in_list (pre post : List (List Char)) (h : List Char) (hh : v6chars h) :
     (createSockets (pre ++ ('[' :: h ++ [']']) :: post))[pre.length]? = some (.inet true h 8000) := by
-  simp [create_sockets_pointwise, bind_bare_v6 h hh]
+  have e := bind_bare_v6 h hh
+  simp only [List.cons_append] at e
+  simp [create_sockets_pointwise, e]
 
 example : createSockets ["127.0.0.1:5000".toList, "127.0.0.2".toList, "unix:/x".toList, "[::1]".toList, "[::]:443".toList, "h".toList] =
     [.inet false "127.0.0.1".toList 5000, .inet false "127.0.0.2".toList 8000, .unix "/x".toList, .inet true "::1".toList 8000,
